@@ -2607,7 +2607,11 @@ class Face3D(Base2DIn3D):
         poly_groups = [[polys[0]]]
         for sub_poly in polys[1:]:
             for i, pg in enumerate(poly_groups):
-                if pg[0].is_polygon_inside(sub_poly):  # it's a hole
+                if tolerance is not None:  # tolerate holes that touch the boundary
+                    is_hole = pg[0].polygon_relationship(sub_poly, tolerance) == 1
+                else:
+                    is_hole = pg[0].is_polygon_inside(sub_poly)
+                if is_hole:
                     poly_groups[i].append(sub_poly)
                     break
             else:  # it's a separate Face3D
